@@ -1,6 +1,6 @@
 (* C16 — compile-time macros equal run-time parsing (the logic of the expansion; rustc,
    proc-macro-hack and error spans are observed by the correspondence check, not modelled). *)
-From UL Require Import Bytes Subtags LangId Ext Macros MacroProofs.
+From UL Require Import Bytes Subtags LangId Ext Macros LocaleInv MacroProofs InvProofs RoundTrip.
 From Coq Require Import String.
 
 Theorem C16_lang : forall lit v, language_from_bytes lit = Ok v -> macro_lang lit = MValue v.
@@ -15,16 +15,16 @@ Theorem C16_langid : forall lit v, langid_from_bytes lit = Ok v -> macro_langid 
 Proof. exact macro_langid_ok. Qed.
 Theorem C16_ill_formed : forall lit, (forall v, langid_from_bytes lit <> Ok v) -> macro_langid lit = MCompileError.
 Proof. exact macro_ill_formed. Qed.
-(* locale!: the id part is exact; the extension string is re-parsed at run time, so the macro is
-   correct exactly when ExtensionsMap round-trips through its string (C05 for ExtensionsMap) *)
-Theorem C16_locale_partial : forall lit l,
-  locale_from_bytes lit = Ok l ->
-  extmap_from_bytes (ext_to_string (loc_ext l)) = Ok (loc_ext l) ->
-  LangIdSpec.li_inv (loc_id l) = true ->
-  macro_locale lit = MValue l.
+(* locale!: the id part travels as integers; the extension STRING is re-parsed at run time with
+   `.expect("must parse")` - it always parses, to the same extensions (C05 for ExtensionsMap) *)
+Theorem C16_locale : forall lit l, locale_from_bytes lit = Ok l -> macro_locale lit = MValue l.
 Proof.
-  intros lit l H He Hi. unfold macro_locale. rewrite H, He, (raw_langid_id _ Hi). destruct l; reflexivity.
+  intros lit l H. unfold macro_locale. rewrite H.
+  pose proof (locale_parse_inv _ _ H) as Hinv. unfold loc_inv in Hinv. apply andb_true_iff in Hinv as [Hi He].
+  rewrite (extmap_roundtrip _ He), (raw_langid_id _ Hi). destruct l; reflexivity.
 Qed.
+Theorem C16_locale_ill_formed : forall lit, (forall l, locale_from_bytes lit <> Ok l) -> macro_locale lit = MCompileError.
+Proof. intros lit H. unfold macro_locale. destruct (locale_from_bytes lit) eqn:E; try reflexivity. exfalso. exact (H _ eq_refl). Qed.
 
 Example C16_ex : macro_lang (bs "und"%string) = MValue None
   /\ macro_locale (bs "en-u-ca-buddhist-t-h0-hybrid"%string)
@@ -38,4 +38,5 @@ Print Assumptions C16_region.
 Print Assumptions C16_variant.
 Print Assumptions C16_langid.
 Print Assumptions C16_ill_formed.
-Print Assumptions C16_locale_partial.
+Print Assumptions C16_locale.
+Print Assumptions C16_locale_ill_formed.
